@@ -18,6 +18,46 @@ the in-place forms return their target.
 A case is (operation, kind of left operand, kind of right operand, A, B) with
 A, B subsets of the key universe; the expected keys are computed with Python
 sets, never with the code under test.
+
+Scenario classes (each enumerated completely over its stated universe):
+
+  base     the operand kinds as plain in-memory objects, None, plain iterables
+           (sorted / unsorted / duplicate / generator), the in-place target
+           itself (`s ^= s`) and - "any mix" - one object as BOTH operands of
+           the functions and of | & - ^ (`union(t, t)`, `s - s`).
+  stored   "for any mix of Set, TreeSet, Bucket, BTree": the containers are
+           PERSISTENT objects; a container stored in a database (rtc.stubdb,
+           a stated model of a ZODB connection) and not used since is a GHOST
+           (no state in memory).  Every operand position (and every in-place
+           target, also as its own operand) is taken by a stored container in
+           the states  saved (stored, loaded, up to date) / ghost (root
+           deactivated with _p_deactivate(), children still loaded) / fresh
+           (first reference in a new connection: every node a ghost), and the
+           operation is the FIRST thing that touches it.  Besides the contract
+           of the base class: the result is not a stored object; a stored
+           operand that is not the target is not marked changed (nothing
+           registered with its connection: "operands that are not the in-place
+           target are never modified"); the in-place target holds the result
+           for every other reader too: after commit a NEW connection reads
+           exactly what the target itself reads (clause `persisted`; that this
+           is the mathematical result is the clause `keys`).
+  views    "plain Python iterables (sorted or not, with duplicates) of the
+           right key type": the lazy views and iterators of the package's own
+           containers are such iterables - keys(), keys(lo, hi), iter(),
+           iterkeys([lo, hi]) of all four kinds, and values(), values(lo, hi),
+           itervalues([lo, hi]) of BTree / Bucket whose values are keys of the
+           family that DECREASE along the keys (and one variant with a
+           duplicate value) - as right operand of everything, as left operand
+           of union / intersection and of the reflected operators, and on both
+           sides.  items() is not an iterable of keys: not an operand.  The
+           container a view reads is an operand too: it is never modified.
+
+A failure of the stored / views classes is attributed: the same call is made
+with the plain in-memory counterparts of the operands (a stored Set -> a Set, a
+view -> a list of the same sequence, a one-shot iterator -> a generator); if
+the same clause fails there too, the failure is not specific to ghosts / views
+and is reported under the key of the plain kinds; otherwise the key names the
+state (`Set@ghost`) or the view (`BTree.values`).
 """
 import argparse
 import concurrent.futures as cf
@@ -25,6 +65,7 @@ import itertools
 
 from lib.common import Standin, Failure, write_standin
 from rtc import harness as H
+from rtc import stubdb
 
 BT = ("Set", "TreeSet", "Bucket", "BTree")
 SETS = ("Set", "TreeSet")
@@ -60,6 +101,9 @@ def combos():
     out += [("rxor", a, b) for a in PLAIN for b in SETS]
     for op in INPLACE:
         out += [(op, a, b) for a in SETS for b in BT + PLAIN + ("self",)]
+    # one object as both operands
+    out += [(op, a, "self") for op in ("union", "intersection", "difference", "or", "and", "sub") for a in BT]
+    out += [("xor", a, "self") for a in SETS]
     return out
 
 
@@ -91,6 +135,7 @@ class Config:
         self.code = {op: compile(src, op, "exec") for op, (_, src) in OPS.items()}
         self.cache = {}
         self.fail, self.evals, self.nontrivial, self.samples = {}, 0, 0, []
+        self.last = self.shown = None
 
     def build(self, kind, A, side):
         """A fresh operand of `kind` holding exactly the keys A (sorted tuple)."""
@@ -135,35 +180,96 @@ class Config:
             return list(o.items()) == self.snapshot(kind, A, side)
         return kind in ("gen", "None") or o == self.snapshot(kind, A, side)
 
+    def header(self):
+        """First lines of every replay script: imports, node sizes, the Python twins under the plain names."""
+        sfx = "Py" if self.impl == "py" else ""
+        return ("from BTrees.%sBTree import *\nfrom BTrees.%sBTree import %s\n" % (
+            self.fam, self.fam, ", ".join("%s%s%s" % (self.fam, k, sfx) for k in BT) + "".join(
+                ", %s%s" % (n, sfx) for n in self.ns)) +
+            "".join("%s%s%s.max_leaf_size, %s%s%s.max_internal_size = %d, %d\n" % (
+                (self.fam, k, sfx) * 2 + tuple(self.sizes)) for k in ("BTree", "TreeSet")) +
+            "".join("%s = %s%s\n" % (n, n, sfx) for n in self.ns if sfx))
+
+    def lit(self, kind, X, side):
+        """Source text of a plain in-memory operand."""
+        sfx = "Py" if self.impl == "py" else ""
+        if kind in SETS:
+            return "%s%s%s(%r)" % (self.fam, kind, sfx, list(X))
+        if kind in BT:
+            return "%s%s%s(%r)" % (self.fam, kind, sfx, dict(self.snapshot(kind, X, side)))
+        if kind == "gen":
+            return "iter(%r)" % (list(X[1:] + X[:1]),)
+        return "l" if kind == "self" else repr(self.build(kind, X, side))
+
+    def emit(self, key, desc, repro, script):
+        if key in self.fail:
+            self.fail[key][2] += 1
+            return
+        self.fail[key] = [Failure(key=key, desc=desc, repro=repro, script=script), None, 1]
+
     def report(self, op, lk, rk, clause, A, B, what):
         key = "setop:%s:%s~%s:%s:%s" % (self.impl, lk, rk, clause, op)
         if key in self.fail:
             self.fail[key][2] += 1
             return
-        sfx = "Py" if self.impl == "py" else ""
+        script = self.header() + "l = %s\nr = %s\n%s\nprint(type(res).__name__, list(res))   # expected keys: %r\n" % (
+            self.lit(lk, A, "l"), self.lit(rk, B, "r"), OPS[op][1], what.get("expected"))
+        self.emit(key, "%s %s sizes=%s: %s with l=%s%r r=%s%r: %s" % (
+            self.fam, self.impl, self.sizes, OPS[op][1], lk, list(A), rk, list(B), what["msg"]),
+            {"family": self.fam, "impl": self.impl, "sizes": list(self.sizes), "op": op,
+             "left": [lk, [repr(k) for k in A]], "right": [rk, [repr(k) for k in B]]}, script)
 
-        def lit(kind, X, side):
-            if kind in SETS:
-                return "%s%s%s(%r)" % (self.fam, kind, sfx, list(X))
-            if kind in BT:
-                return "%s%s%s(%r)" % (self.fam, kind, sfx, dict(self.snapshot(kind, X, side)))
-            if kind == "gen":
-                return "iter(%r)" % (list(X[1:] + X[:1]),)
-            return "l" if kind == "self" else repr(self.build(kind, X, side))
-        script = ("from BTrees.%sBTree import *\nfrom BTrees.%sBTree import %s\n" % (
-            self.fam, self.fam, ", ".join("%s%s%s" % (self.fam, k, sfx) for k in BT) + "".join(
-                ", %s%s" % (n, sfx) for n in self.ns)) +
-            "".join("%s%s%s.max_leaf_size, %s%s%s.max_internal_size = %d, %d\n" % (
-                (self.fam, k, sfx) * 2 + tuple(self.sizes)) for k in ("BTree", "TreeSet")) +
-            "".join("%s = %s%s\n" % (n, n, sfx) for n in self.ns if sfx) +
-            "l = %s\nr = %s\n%s\nprint(type(res).__name__, list(res))   # expected keys: %r\n" % (
-                lit(lk, A, "l"), lit(rk, B, "r"), OPS[op][1], what.get("expected")))
-        self.fail[key] = [Failure(
-            key=key, desc="%s %s sizes=%s: %s with l=%s%r r=%s%r: %s" % (
-                self.fam, self.impl, self.sizes, OPS[op][1], lk, list(A), rk, list(B), what["msg"]),
-            repro={"family": self.fam, "impl": self.impl, "sizes": list(self.sizes), "op": op,
-                   "left": [lk, [repr(k) for k in A]], "right": [rk, [repr(k) for k in B]]},
-            script=script), None, 1]
+    # ------------------------------------------------- the contract of a result
+    def contract(self, op, lcat, rcat, l, r, res, exp):
+        """Documented kind, newness, keys sorted / duplicate-free / mathematical, len and membership,
+        difference values, target undamaged -> ([(clause, message, expected keys)], stop)."""
+        out = []
+        bad = lambda clause, msg, e=None: out.append((clause, msg, e))
+        math_op = OPS[op][0]
+        inplace = op in INPLACE
+        # --- documented kind
+        if inplace:
+            if res is not l:
+                bad("kind", "the in-place form did not return its target")
+        else:
+            if math_op == "xor":
+                kinds = SETS
+            elif math_op == "difference":
+                kinds = ("Set",) if (lcat in SETS or (lcat in PLAIN and rcat in SETS)) else \
+                    ("Bucket",) if lcat in BT else ("Set", "Bucket")
+            else:
+                kinds = ("Set",)
+            if type(res) not in [self.cls[k] for k in kinds]:
+                bad("kind", "result is a %s, documented kind %s" % (type(res).__name__, "/".join(kinds)))
+                return out, True
+            if res is l or res is r:
+                bad("new", "the result is one of the operands, not a new container")
+            elif getattr(res, "_p_oid", None) is not None:
+                bad("new", "the result is an object stored in a database (it has an oid), not a new container")
+        # --- sorted, duplicate free, mathematical result
+        try:
+            ks = list(res.keys())
+            mapping = type(res) in (self.cls["Bucket"], self.cls["BTree"])
+            items = list(res.items()) if mapping else None
+            members = [k for k in self.U if k in res]
+            n = len(res)
+        except Exception as e:
+            bad("raised", "inspecting the result raised %s: %s" % (type(e).__name__, e))
+            return out, True
+        if ks != exp:
+            clause = "dupfree" if len(set(ks)) != len(ks) else "sorted" if ks != sorted(ks) else "keys"
+            bad(clause, "keys %r, expected %r" % (ks, exp), exp)
+        elif n != len(exp) or members != exp:
+            bad("member", "len %r / members %r disagree with the keys %r" % (n, members, exp), exp)
+        elif mapping and items != [(k, value(self.fam, "l", self.idx[k])) for k in exp]:
+            bad("values", "items %r do not carry the first operand's values" % (items,), exp)
+        if inplace and lcat == "TreeSet":
+            try:
+                l._check()
+            except Exception as e:
+                bad("damage", "_check() rejects the target afterwards: %s" % (e,), exp)
+        self.last = (ks, items, mapping)
+        return out, False
 
     # ------------------------------------------------------------------ one case
     def case(self, op, lk, rk, A, B):
@@ -194,45 +300,12 @@ class Config:
         exp = sorted(MATH[math_op](sA, sB))
         if sA and sB:
             self.nontrivial += 1
-        # --- documented kind
-        if inplace:
-            if res is not l:
-                bad("kind", "the in-place form did not return its target")
-        else:
-            if math_op == "xor":
-                kinds = SETS
-            elif math_op == "difference":
-                kinds = ("Set",) if (lk in SETS or (lk in PLAIN and rk in SETS)) else \
-                    ("Bucket",) if lk in BT else ("Set", "Bucket")
-            else:
-                kinds = ("Set",)
-            if type(res) not in [self.cls[k] for k in kinds]:
-                bad("kind", "result is a %s, documented kind %s" % (type(res).__name__, "/".join(kinds)))
-                return
-            if res is l or res is r:
-                bad("new", "the result is one of the operands, not a new container")
-        # --- sorted, duplicate free, mathematical result
-        try:
-            ks = list(res.keys())
-            mapping = type(res) in (self.cls["Bucket"], self.cls["BTree"])
-            items = list(res.items()) if mapping else None
-            members = [k for k in self.U if k in res]
-            n = len(res)
-        except Exception as e:
-            bad("raised", "inspecting the result raised %s: %s" % (type(e).__name__, e))
+        fails, stop = self.contract(op, lk, lk if rk == "self" else rk, l, r, res, exp)
+        for f in fails:
+            bad(*f)
+        if stop:
             return
-        if ks != exp:
-            clause = "dupfree" if len(set(ks)) != len(ks) else "sorted" if ks != sorted(ks) else "keys"
-            bad(clause, "keys %r, expected %r" % (ks, exp), exp)
-        elif n != len(exp) or members != exp:
-            bad("member", "len %r / members %r disagree with the keys %r" % (n, members, exp), exp)
-        elif mapping and items != [(k, value(self.fam, "l", self.idx[k])) for k in exp]:
-            bad("values", "items %r do not carry the first operand's values" % (items,), exp)
-        if inplace and lk == "TreeSet":
-            try:
-                l._check()
-            except Exception as e:
-                bad("damage", "_check() rejects the target afterwards: %s" % (e,), exp)
+        ks, items, mapping = self.last
         # --- operands that are not the in-place target are never modified
         ok_l = inplace or self.unmodified(l, lk, A, "l")
         ok_r = rk == "self" or self.unmodified(r, rk, B, "r")
@@ -249,9 +322,347 @@ class Config:
         self.cache.pop((lk, A, "l"), None)
         self.cache.pop((rk, B, "r"), None)
 
+    # ------------------------------------------- stored / view scenarios: operands as objects
+    def trial(self, op, L, R):
+        """The call and its whole contract for two operand objects (R is L: one object on both
+        sides) -> [(clause, message, expected keys)]."""
+        alias = R is L
+        l, r = L.obj, L.obj if alias else R.obj
+        inplace = op in INPLACE
+        env = dict(self.ns, l=l, r=r)
+        try:
+            exec(self.code[op], env)
+            res = env["res"]
+        except Exception as e:
+            return [("raised", "raised %s: %s" % (type(e).__name__, e), None)]
+        exp = sorted(MATH[OPS[op][0]](L.keys, R.keys))
+        out, stop = self.contract(op, L.cat, R.cat, l, r, res, exp)
+        if stop:
+            return out
+        self.shown = "%s %r" % (type(res).__name__, self.last[1] if self.last[2] else self.last[0])
+        for o, side in ((L, "left"), (R, "right")):
+            if (o is L and inplace) or (o is R and alias and side == "right"):
+                continue
+            m = o.unmodified()
+            if m:
+                out.append(("operand-modified", "the %s operand was modified: %s" % (side, m), exp))
+            m = o.dirty()
+            if m:
+                out.append(("operand-dirty", "the %s operand %s" % (side, m), exp))
+        if inplace:
+            m = L.persisted(self.last[0])
+            if m:
+                out.append(("persisted", m, exp))
+        return out
+
+    def scenario(self, op, L, R):
+        self.evals += 1
+        if L.keys and R.keys:
+            self.nontrivial += 1
+        fails = self.trial(op, L, R)
+        if self.want_sample and self.want_sample(op, L, R) and len(self.samples) < 1 and not fails:
+            self.samples.append({"case": "%s %s: %s" % (self.fam, self.impl, OPS[op][1]), "l": L.text("l").strip(),
+                                 "r": "r = l" if R is L else R.text("r").strip(), "res": self.shown})
+        if not fails:
+            return
+        plain = None
+        for clause, msg, exp in fails:
+            X, Y, note = L, R, ""
+            if clause not in ("operand-dirty", "persisted"):
+                if plain is None:                # the same call with the plain counterparts of the operands
+                    plain = []
+                    for i in range(len(L.plains())):
+                        for j in range(1 if R is L else len(R.plains())):
+                            Lp = L.plains()[i]                       # fresh objects for every call
+                            Rp = Lp if R is L else R.plains()[j]
+                            plain.append((Lp, Rp, {c: (m, e) for c, m, e in reversed(self.trial(op, Lp, Rp))}))
+                for Lp, Rp, clauses in plain:
+                    if clause in clauses:        # not specific to stored objects / views
+                        X, Y = Lp, Rp
+                        msg, exp = clauses[clause]
+                        note = "  (the plain in-memory counterparts of l=%s r=%s, which fail the same clause)" % (
+                            L.say(), "l" if R is L else R.say())
+                        break
+            rkind = "self" if Y is X else Y.kind
+            key = "setop:%s:%s~%s:%s:%s" % (self.impl, X.kind, rkind, clause, op)
+            script = self.header() + (STORE if isinstance(X, Stored) or isinstance(Y, Stored) else "") + \
+                X.text("l") + ("r = l\n" if Y is X else Y.text("r")) + \
+                "%s\nprint(type(res).__name__, list(res))   # expected keys: %r\n" % (OPS[op][1], exp)
+            self.emit(key, "%s %s sizes=%s: %s with l=%s r=%s: %s%s" % (
+                self.fam, self.impl, self.sizes, OPS[op][1], X.say(), "l" if Y is X else Y.say(), msg, note),
+                {"family": self.fam, "impl": self.impl, "sizes": list(self.sizes), "op": op,
+                 "left": X.repro(), "right": ["self"] if Y is X else Y.repro()}, script)
+
+    want_sample = None
+
+
+# ---------------------------------------------------------------- operand objects
+class Plain:
+    """A plain in-memory operand of a base kind (BT kinds: a private, fresh object)."""
+    conn = None
+
+    def __init__(self, cfg, kind, A, side):
+        self.cfg, self.kind, self.base, self.cat, self.A, self.side = cfg, kind, kind, kind, A, side
+        self.keys = set(A)
+        self.obj = cfg.build(kind, A, side)
+
+    def unmodified(self):
+        try:
+            if self.cfg.unmodified(self.obj, self.base, self.A, self.side):
+                return None
+        except Exception as e:
+            return "reading it raised %s: %s" % (type(e).__name__, e)
+        return "it no longer holds %r" % (self.cfg.snapshot(self.base, self.A, self.side),)
+
+    def dirty(self):
+        return None
+
+    def persisted(self, exp):
+        return None
+
+    def plains(self):
+        """The plain in-memory counterparts of this operand (fresh objects)."""
+        return [Plain(self.cfg, self.base, self.A, self.side)]
+
+    def text(self, name):
+        return "%s = %s\n" % (name, self.cfg.lit(self.kind, self.A, self.side))
+
+    def say(self):
+        return "%s%r" % (self.kind, list(self.A))
+
+    def repro(self):
+        return [self.kind, [repr(k) for k in self.A]]
+
+
+class Seq(Plain):
+    """The plain counterpart of a view: a list (or, for a one-shot iterator, a generator) of the same sequence."""
+
+    def __init__(self, cfg, seq, oneshot):
+        self.cfg, self.seq, self.oneshot = cfg, list(seq), oneshot
+        self.kind = "gen" if oneshot else "listdup" if len(set(seq)) != len(seq) else \
+            "list" if self.seq == sorted(self.seq) else "listuns"
+        self.cat, self.keys = "list", set(seq)
+        self.obj = (k for k in self.seq) if oneshot else list(self.seq)
+
+    def unmodified(self):
+        return None if self.oneshot or self.obj == self.seq else "the list was changed"
+
+    def plains(self):
+        return [Seq(self.cfg, self.seq, self.oneshot)]
+
+    def text(self, name):
+        return "%s = %s%r%s\n" % (name, "iter(" if self.oneshot else "", self.seq, ")" if self.oneshot else "")
+
+    def say(self):
+        return "%s%r" % (self.kind, self.seq)
+
+    def repro(self):
+        return [self.kind, [repr(k) for k in self.seq]]
+
+
+STATES = ("saved", "ghost", "fresh")
+STORE = '''from rtc.stubdb import Storage          # PYTHONPATH must also hold /verif
+def stored(o, state, st=Storage()):
+    c = st.open(); c.add(o); c.commit()                 # stored by one connection ...
+    g = st.open().get(o._p_oid)                         # ... a ghost in another one
+    if state != "fresh": list(g.keys())                 # saved: loaded completely
+    if state == "ghost": g._p_deactivate()              # ghost: the root only
+    return g
+'''
+
+
+class Stored(Plain):
+    """A container of a BT kind stored in the stub database and referenced through a NEW connection
+    in one of STATES; nothing touches it before the operation."""
+
+    def __init__(self, cfg, kind, A, side, state):
+        self.cfg, self.base, self.cat, self.A, self.side, self.state = cfg, kind, kind, A, side, state
+        self.kind = "%s@%s" % (kind, state)
+        self.keys = set(A)
+        oid = cfg.oids.get((kind, A, side))
+        if oid is None:
+            c = cfg.st.open()
+            o = cfg.build(kind, A, side)
+            c.add(o)
+            c.commit()
+            oid = cfg.oids[(kind, A, side)] = o._p_oid
+        self.oid = oid
+        self.conn = c = cfg.st.open()
+        self.obj = o = c.get(oid)
+        if state != "fresh":
+            list(o.keys())
+            if o._p_changed is not False or c.registered:
+                raise RuntimeError("stand-in: reading a stored %s marked it changed" % kind)
+            if state == "ghost":
+                o._p_deactivate()
+        if state != "saved" and o._p_changed is not None:
+            raise RuntimeError("stand-in: could not make the %s a ghost" % kind)
+
+    def dirty(self):
+        c = self.conn
+        if c.registered or any(o._p_changed for o in c.nodes()):
+            return "was marked changed (%s registered with its connection)" % (
+                ", ".join(sorted(set(type(o).__name__ for o in c.registered))) or "nothing",)
+        return None
+
+    def persisted(self, held):
+        """The target holds the result for every reader: after commit a new connection reads what
+        the target itself reads (`held`; whether that is the mathematical result is clause keys)."""
+        st = self.cfg.st
+        mark = (st.tid, st.noid)
+        try:
+            self.conn.commit()
+            got = list(st.open().get(self.oid).keys())
+        except Exception as e:
+            return "committing the target afterwards raised %s: %s" % (type(e).__name__, e)
+        finally:
+            rollback(st, *mark)
+        if got != held:
+            return "the target reads %r, after commit a new connection reads it as %r" % (held, got)
+        return None
+
+    def text(self, name):
+        return "%s = stored(%s, %r)\n" % (name, self.cfg.lit(self.base, self.A, self.side), self.state)
+
+    def say(self):
+        return "%s%r" % (self.kind, list(self.A))
+
+
+def rollback(st, tid, noid):
+    """Forget the transactions after `tid` (the storage is shared by the cases of a configuration)."""
+    while st.tid > tid:
+        for oid in st.log.pop(st.tid, ()):
+            st.revs[oid].pop()
+            if not st.revs[oid]:
+                del st.revs[oid]
+                st.cls.pop(oid, None)
+        st.tid -= 1
+    st.noid = noid
+
+
+# view kinds: (kind of the container read, view).  *range: the bounds cut off the first and the last key
+# of the universe (key views) / of the container (value views); values*: the container maps m other keys,
+# in increasing order, to the keys B in DECREASING order (valuesdup: followed by the largest once more)
+KEYVIEWS = ("keys", "keysrange", "iter", "iterkeys", "iterkeysrange")
+VALVIEWS = ("values", "valuesrange", "valuesdup", "itervalues", "itervaluesrange")
+ONESHOT = ("iter", "iterkeys", "iterkeysrange", "itervalues", "itervaluesrange")
+VIEWS = [(k, v) for v in KEYVIEWS for k in BT] + [(k, v) for v in VALVIEWS for k in ("Bucket", "BTree")]
+VRANGE = {"I": (-2**31, 2**31 - 1), "U": (0, 2**32 - 1), "L": (-2**63, 2**63 - 1), "Q": (0, 2**64 - 1)}
+
+
+def values_hold_keys(fam):
+    if fam == "fs" or fam[1] == "F":
+        return False
+    if fam[1] == "O":
+        return True
+    if fam[0] == "O":
+        return False
+    (klo, khi), (vlo, vhi) = VRANGE[fam[0]], VRANGE[fam[1]]
+    return vlo <= klo and khi <= vhi
+
+
+class View(Plain):
+    def __init__(self, cfg, srckind, view, B, side):
+        self.cfg, self.srckind, self.view, self.B, self.side = cfg, srckind, view, B, side
+        self.kind, self.cat = "%s.%s" % (srckind, view), "list"
+        self.oneshot = view in ONESHOT
+        ent = cfg.cache.get(("view", srckind, view in VALVIEWS, view == "valuesdup", B, side))
+        if ent is None:
+            if view in VALVIEWS:
+                vals = list(reversed(B)) + ([B[-1]] if view == "valuesdup" else [])
+                content = list(zip(cfg.SK, vals))
+                if len(content) != len(vals):
+                    raise RuntimeError("stand-in: not enough source keys")
+                src = cfg.cls[srckind]()
+                for k, v in content:
+                    src[k] = v
+            else:
+                src = cfg.build(srckind, B, side)
+                content = list(B) if srckind in SETS else cfg.snapshot(srckind, B, side)
+            ent = cfg.cache[("view", srckind, view in VALVIEWS, view == "valuesdup", B, side)] = (src, content)
+        self.src, self.content = ent
+        src = self.src
+        ks = [c if srckind in SETS else c[0] for c in self.content]
+        if view in VALVIEWS:
+            self.args = (ks[1], ks[max(len(ks) - 2, 1)]) if view.endswith("range") and len(ks) > 1 else \
+                (cfg.SK[1], cfg.SK[1]) if view.endswith("range") else ()
+        else:
+            self.args = (cfg.U[1], cfg.U[-2]) if view.endswith("range") else ()
+        inr = (lambda k: self.args[0] <= k <= self.args[1]) if self.args else (lambda k: True)
+        if view in VALVIEWS:
+            self.seq = [v for k, v in self.content if inr(k)]
+        else:
+            self.seq = [k for k in ks if inr(k)]
+        self.meth = {"keysrange": "keys", "iterkeysrange": "iterkeys", "valuesrange": "values", "valuesdup": "values",
+                     "itervaluesrange": "itervalues"}.get(view, view)
+        self.obj = iter(src) if view == "iter" else getattr(src, self.meth)(*self.args)
+        self.keys = set(self.seq)
+
+    def unmodified(self):
+        got = list(self.src.keys()) if self.srckind in SETS else list(self.src.items())
+        if got != self.content:
+            self.cfg.cache.pop(("view", self.srckind, self.view in VALVIEWS, self.view == "valuesdup", self.B, self.side), None)
+            return "the container the view reads now holds %r" % (got,)
+        return None
+
+    def plains(self):
+        """A list of the same sequence; an iterator over it (a view that can be read again is both)."""
+        return [Seq(self.cfg, self.seq, self.oneshot)] + ([] if self.oneshot else [Seq(self.cfg, self.seq, True)])
+
+    def text(self, name):
+        sfx = "Py" if self.cfg.impl == "py" else ""
+        c = list(self.content) if self.srckind in SETS else dict(self.content)
+        call = "iter(src_%s)" % name if self.view == "iter" else "src_%s.%s(%s)" % (name, self.meth, ", ".join(map(repr, self.args)))
+        return "src_%s = %s%s%s(%r)\n%s = %s   # yields %r\n" % (name, self.cfg.fam, self.srckind, sfx, c, name, call, self.seq)
+
+    def say(self):
+        return "%s(%s)%r" % (self.kind, ", ".join(map(repr, self.args)), self.seq)
+
+    def repro(self):
+        return [self.kind, [repr(c) for c in self.content], [repr(a) for a in self.args]]
+
+
+# ---------------------------------------------------------------- enumerations
+def stored_combos():
+    """(op, left kind, left state, right kind, right state); state 'plain' = in memory only; right kind
+    'self' = the left object itself."""
+    G = ("ghost", "fresh")
+    BB = (("ghost", "plain"), ("plain", "ghost"), ("ghost", "ghost"), ("fresh", "fresh"),
+          ("fresh", "saved"), ("saved", "fresh"), ("fresh", "plain"), ("plain", "fresh"))
+    out = []
+    fwd = [(op, a) for op in ("union", "intersection", "difference", "or", "and", "sub") for a in BT] + [("xor", a) for a in SETS]
+    for op, a in fwd:
+        out += [(op, a, ls, b, rs) for b in BT for ls, rs in BB]
+        out += [(op, a, ls, b, "plain") for b in PLAIN for ls in G]
+        out += [(op, a, ls, "self", ls) for ls in G]
+    for op in ("union", "intersection", "ror", "rand", "rsub"):
+        out += [(op, a, "plain", b, rs) for a in PLAIN for b in BT for rs in G]
+    out += [("rxor", a, "plain", b, rs) for a in PLAIN for b in SETS for rs in G]
+    for op in INPLACE:
+        for a in SETS:
+            out += [(op, a, ls, b, rs) for b in BT for ls in STATES for rs in ("plain",) + G]
+            out += [(op, a, ls, b, "plain") for b in PLAIN for ls in STATES]
+            out += [(op, a, ls, "self", ls) for ls in STATES]
+    return out
+
+
+def view_combos(views):
+    """(op, left, right); a side is a BT kind or a (container kind, view) pair."""
+    out = []
+    for v in views:
+        for op in ("union", "intersection", "difference", "or", "and", "sub"):
+            out += [(op, a, v) for a in BT]
+        out += [("xor", a, v) for a in SETS]
+        out += [(op, a, v) for op in INPLACE for a in SETS]
+        for op in ("union", "intersection", "ror", "rand", "rsub"):
+            out += [(op, v, b) for b in BT]
+        out += [("rxor", v, b) for b in SETS]
+        out += [(op, v, v) for op in ("union", "intersection")]
+    return out
+
 
 def run_config(args):
-    fam, impl, nkeys, sizes = args
+    fam, impl, nkeys, sizes = args[1:5]
     c = Config(fam, impl, nkeys, sizes)
     subsets = [s for n in range(nkeys + 1) for s in itertools.combinations(c.U, n)]
     ops = combos()
@@ -267,40 +678,114 @@ def run_config(args):
     return c.evals, c.nontrivial, [(f, n) for f, _, n in c.fail.values()], c.samples
 
 
+def run_stored(args):
+    _, fam, impl, nkeys, sizes, part, nparts = args
+    c = Config(fam, impl, nkeys, sizes)
+    c.st, c.oids = stubdb.Storage(), {}
+    c.want_sample = lambda op, L, R: (op, L.kind, R.kind) == ("ixor", "TreeSet@fresh", "BTree@ghost") and len(L.A) == 3 and len(R.A) == 2
+    subsets = [s for n in range(nkeys + 1) for s in itertools.combinations(c.U, n)]
+    ops = stored_combos()[part::nparts]
+
+    def opd(kind, state, X, side):
+        return Plain(c, kind, X, side) if state == "plain" else Stored(c, kind, X, side, state)
+    for A in subsets:
+        skipA = {"listuns": len(A) < 2, "listdup": len(A) < 1}
+        for B in subsets:
+            skipB = {"listuns": len(B) < 2, "listdup": len(B) < 1, "self": A != B}
+            for op, lk, ls, rk, rs in ops:
+                if skipA.get(lk) or skipB.get(rk):
+                    continue
+                L = opd(lk, ls, A, "l")
+                c.scenario(op, L, L if rk == "self" else opd(rk, rs, B, "r"))
+    return c.evals, c.nontrivial, [(f, n) for f, _, n in c.fail.values()], c.samples
+
+
+def run_views(args):
+    _, fam, impl, nkeys, sizes, part, nparts = args
+    c = Config(fam, impl, nkeys, sizes)
+    c.SK = [k for k in range(11, 11 + nkeys + 1)]           # keys of the containers whose VALUES are the operand
+    c.want_sample = lambda op, L, R: (op, L.kind, R.kind) == ("difference", "BTree", "BTree.values") and len(L.A) == 3 and len(R.B) == 3
+    views = [(k, v) for k, v in VIEWS if (v in KEYVIEWS or values_hold_keys(fam)) and
+             (v == "iter" or hasattr(c.cls[k], {"keysrange": "keys", "iterkeysrange": "iterkeys", "valuesrange": "values",
+                                                "valuesdup": "values", "itervaluesrange": "itervalues"}.get(v, v)))]
+    subsets = [s for n in range(nkeys + 1) for s in itertools.combinations(c.U, n)]
+    ops = view_combos(views)[part::nparts]
+
+    def opd(k, X, side):
+        if isinstance(k, tuple):
+            return None if k[1] == "valuesdup" and not X else View(c, k[0], k[1], X, side)
+        return Plain(c, k, X, side)
+    for A in subsets:
+        for B in subsets:
+            for op, lk, rk in ops:
+                L, R = opd(lk, A, "l"), opd(rk, B, "r")
+                if L is not None and R is not None:
+                    c.scenario(op, L, R)
+    return c.evals, c.nontrivial, [(f, n) for f, _, n in c.fail.values()], c.samples, ["%s.%s" % v for v in views]
+
+
+def run_job(args):
+    return {"base": run_config, "stored": run_stored, "views": run_views}[args[0]](args)
+
+
 def main():
     ap = argparse.ArgumentParser()
     ap.add_argument("--out")
     a = ap.parse_args()
     qs = H.tier() == "quick"
     nkeys = 5 if qs else 6
+    nk2 = 4 if qs else 5          # stored / views classes
     sizes = (2, 2)
     s = Standin(
         name="setop_rt",
-        bound="all pairs (A, B) of subsets of %d keys (incl. the key extremes of the family) x all pairs of operand "
+        bound="BASE: all pairs (A, B) of subsets of %d keys (incl. the key extremes of the family) x all pairs of operand "
               "kinds {Set, TreeSet, Bucket, BTree at node sizes 2/2, sorted list, reversed list, list with a "
-              "duplicate, generator, None, the target itself} x {union, intersection, difference as functions; "
-              "| & - ^ with the BTrees operand left and (reflected) right; |= &= -= ^= on Set / TreeSet}; "
-              "C and Python; families %s" % (nkeys, ",".join(H.fams())),
+              "duplicate, generator, None, the left operand itself} x {union, intersection, difference as functions; "
+              "| & - ^ with the BTrees operand left and (reflected) right; |= &= -= ^= on Set / TreeSet}.  "
+              "STORED: all pairs of subsets of %d keys x the same operations, every operand position (and in-place target, "
+              "also as its own operand) a container stored in rtc.stubdb (a model of a ZODB connection) and seen through a new "
+              "connection as saved / ghost (root deactivated) / fresh (all nodes ghosts), the other operand in memory, a "
+              "plain iterable, or stored too; the operation is the first access.  VIEWS: all pairs of subsets of %d keys x "
+              "keys(), keys(lo, hi), iter(), iterkeys([lo, hi]) of the four kinds and values(), values(lo, hi), "
+              "itervalues([lo, hi]) of BTree / Bucket with key-typed values DECREASING along the keys (one variant with a "
+              "duplicate) as right operand of every operation, left operand of union / intersection and the reflected "
+              "operators, and on both sides; items() is not a key iterable.  C and Python; families %s" % (
+                  nkeys, nk2, nk2, ",".join(H.fams())),
         rule="case = one call and its contract (kind, newness, keys sorted / duplicate-free / mathematical, len and "
-             "membership, difference values, operands unmodified); distinct non-trivial = cases with two non-empty "
-             "operands (the enumeration never repeats a case)",
+             "membership, difference values, operands - incl. the container a view reads - unmodified; stored: non-target "
+             "operands not marked changed, in-place target read back by a new connection after commit); distinct "
+             "non-trivial = cases with two non-empty operands (no class repeats a case)",
         exhaustive=True,
         functions=["set_operation", "initSetIteration", "copyRemaining", "union_m", "intersection_m", "difference_m",
                    "bucket_sub/or/and", "Generic_set_xor", "set_ior/iand/isub/ixor", "TreeSet_ior/iand/isub/ixor",
                    "_base.union/intersection/difference", "_ArithmeticMixin", "_MutableSetMixin.__i*__ (run-time)"])
-    jobs = [(fam, impl, nkeys, sizes) for impl in ("py", "c") for fam in H.fams()]
+    NS, NV = 4, 2
+    jobs = [("base", fam, impl, nkeys, sizes) for impl in ("py", "c") for fam in H.fams()]
+    jobs += [("stored", fam, impl, nk2, sizes, p, NS) for impl in ("py", "c") for fam in H.fams() for p in range(NS)]
+    jobs += [("views", fam, impl, nk2, sizes, p, NV) for impl in ("py", "c") for fam in H.fams() for p in range(NV)]
     merged = {}                                     # one Failure per key: first case + where else it fired
+    views = []
     with cf.ProcessPoolExecutor(max_workers=min(16, len(jobs))) as ex:
-        for (fam, impl, _, _), (ev, nt, fails, samples) in zip(jobs, ex.map(run_config, jobs)):
+        for job, out in zip(jobs, ex.map(run_job, jobs)):
+            cls, fam, impl = job[:3]
+            ev, nt, fails, samples = out[:4]
+            if cls == "views":
+                views = out[4]
             if fam == H.fams()[-1]:
-                s.samples += samples[:1] if impl == "py" else samples[1:2]   # one measured case per implementation
+                if cls == "base":
+                    s.samples += samples[:1] if impl == "py" else samples[1:2]   # one measured case per implementation
+                elif impl == "c":
+                    s.samples += samples[:1]
             s.evaluations += ev
             s.distinct_nontrivial += nt
             for f, n in fails:
-                merged.setdefault(f.key, (f, []))[1].append("%s: %d cases" % (fam, n))
+                w = merged.setdefault(f.key, (f, {}))[1]
+                tag = fam if cls == "base" else "%s %s" % (fam, cls)
+                w[tag] = w.get(tag, 0) + n
     for f, where in merged.values():
-        f.desc += "  [" + ", ".join(where) + "]"
+        f.desc += "  [" + ", ".join("%s: %d cases" % kv for kv in where.items()) + "]"
         s.failures.append(f)
+    s.bound += "; views used (last family): " + " ".join(views)
     write_standin(a.out, s)
 
 
